@@ -267,6 +267,12 @@ sort_buf(uint8_t *src, uint8_t *buf, int64_t bufsize)
 static void
 write_stream(int fd, void *base, void *dst, const void *src, size_t size)
 {
+#ifdef OVNI_VERIF
+	/* Verification hook: with the heap buffer of stream.c the file writes
+	 * are not visible through the stream buffer, so update it too. */
+	if (getenv("OVNI_VERIF_HEAPBUF") != NULL)
+		memcpy(dst, src, size);
+#endif
 	while (size > 0) {
 		off_t offset = (off_t) dst - (off_t) base;
 		ssize_t written = pwrite(fd, src, size, offset);
